@@ -133,7 +133,11 @@ func vsetFor(op string, dt string, r *rng) int {
 func (g *gen) binProgram(op, dt, kind, via string, sh []int, la, lb string, mode string, destLayout string) {
 	var steps []string
 	nv := 0
-	steps = append(steps, fmt.Sprintf("vset=%d", vsetFor(op, dt, g.r)))
+	vs := vsetFor(op, dt, g.r)
+	if g.forceVset != 0 {
+		vs = g.forceVset
+	}
+	steps = append(steps, fmt.Sprintf("vset=%d", vs))
 	var A, B string
 	var operands []int
 	switch kind {
@@ -145,10 +149,16 @@ func (g *gen) binProgram(op, dt, kind, via string, sh []int, la, lb string, mode
 	case "TS":
 		a := g.operand(&steps, &nv, dt, sh, la)
 		A, B = fmt.Sprintf("$%d", a), fmt.Sprintf("#k%d", 2+g.r.intn(3))
+		if g.forceLit != "" {
+			B = g.forceLit
+		}
 		operands = []int{a}
 	case "ST":
 		b := g.operand(&steps, &nv, dt, sh, lb)
 		A, B = fmt.Sprintf("#k%d", 2+g.r.intn(3)), fmt.Sprintf("$%d", b)
+		if g.forceLit != "" {
+			A = g.forceLit
+		}
 		operands = []int{b}
 	}
 	opts := ""
@@ -204,6 +214,43 @@ func (g *gen) binProgram(op, dt, kind, via string, sh []int, la, lb string, mode
 	g.emit(steps...)
 }
 
+// kernelMatrix: one program for every generated kernel variant an operation reaches through the engine glue:
+// op x element type x {TT, TS, ST} x {raw path, iterator path} x option mode. Fixed (2,3) shape, value sets with
+// ties at the scalar operands (2..4) so that <, <=, ==, min/max and the operand order of - / are distinguishable.
+func (g *gen) kernelMatrix(ops []string, cmp bool, modes []string) {
+	for _, op := range ops {
+		dts := numDtypes
+		if cmp {
+			dts = ordDtypes
+			if op == "eq" || op == "ne" {
+				dts = eqDtypes
+			}
+		}
+		for _, dt := range dts {
+			for _, kind := range []string{"TT", "TS", "ST"} {
+				for _, path := range []string{"contig", "sliced"} {
+					for _, mode := range modes {
+						g.forceVset = 2
+						lits := []string{""}
+						if cmp && dt != "b" {
+							// ties: the value set -2..2 holds both 0 and 1 in the whole tensor and in the view
+							g.forceVset = 3
+							if kind != "TT" {
+								lits = []string{"#k0", "#k1"}
+							}
+						}
+						for _, l := range lits {
+							g.forceLit = l
+							g.binProgram(op, dt, kind, "fn", []int{2, 3}, path, path, mode, "contig")
+						}
+						g.forceVset, g.forceLit = 0, ""
+					}
+				}
+			}
+		}
+	}
+}
+
 func (g *gen) pickShape() []int { return opShapes[g.r.intn(len(opShapes))] }
 
 // C06: elementwise arithmetic — coordinate-wise, exact, layout-blind.
@@ -212,6 +259,7 @@ func genC06(g *gen) {
 	if g.thorough() {
 		n = 200
 	}
+	g.kernelMatrix(arithOps, false, []string{"safe", "unsafe", "reuse", "incr"})
 	// systematic: every op x dtype x kind x via, with rotating layouts/shapes
 	for _, op := range arithOps {
 		for _, dt := range numDtypes {
@@ -270,6 +318,8 @@ func genC07(g *gen) {
 	}
 	modes := []string{"safe", "unsafe", "reuse", "incr", "reuse=a", "reuse=b", "incr=a"}
 	dests := []string{"contig", "sliced", "contig", "lazyT"}
+	g.kernelMatrix(arithOps, false, []string{"safe", "unsafe", "reuse", "incr"})
+	g.kernelMatrix(cmpOps, true, []string{"safe", "same", "unsafe", "reuse-bool", "reuse-same"})
 	for _, op := range []string{"minb", "maxb"} {
 		for _, mode := range []string{"safe", "unsafe", "reuse", "reuse=a", "reuse=b"} {
 			for _, kind := range []string{"TT", "TS", "ST"} {
@@ -324,6 +374,7 @@ func genC11(g *gen) {
 	if g.thorough() {
 		n = 80
 	}
+	g.kernelMatrix(cmpOps, true, []string{"safe", "same", "unsafe", "reuse-bool", "reuse-same"})
 	for _, op := range cmpOps {
 		dts := ordDtypes
 		if op == "eq" || op == "ne" {
